@@ -10,6 +10,22 @@ from vlib import aggs, programs as P
 from vlib.probes import PositionCoding, Recording
 
 DERIV_TOL = {"float64": 1e-9, "float32": 3e-4}
+SCALE_MAX = {"float64": 1e6, "float32": 1e3}
+
+
+def scale_ok(dtype: str, scale: float) -> bool:
+    """Programs whose values or tangents exceed 1e6 (float64) / 1e3 (float32) are outside the tested domain: a float32
+    evaluation of e.g. sin(exp(exp(x))) with an argument of 1600 loses 1e-4 of the angle, and its derivative (scaled by
+    the chain factor) is then off by far more than any fixed relative tolerance - conditioning, not a defect."""
+    return bool(scale < SCALE_MAX[dtype])
+
+
+def deriv_tol(dtype: str, scale: float) -> float:
+    """Tolerance on derivative values: linear term (rounding of O(scale) quantities) plus a quadratic term (an argument
+    of size `scale` rounded to eps, multiplied by a chain factor of size `scale`)."""
+    sc = max(1.0, scale)
+    eps = 2.220446049250313e-16 if dtype == "float64" else 1.1920929e-07
+    return DERIV_TOL[dtype] * sc + 4 * eps * sc * sc
 
 
 def jd_aggregator(rng, m: int, order_sensitive_bias: int = 1, exclude=()) -> dict:
@@ -68,7 +84,7 @@ def check_deposit(out, label, expected_blocks: dict[int, np.ndarray], leaves: li
     if not out.check(tuple(r.shape) == (ncols,), f"{label}:vector-shape", f"{tuple(r.shape)}"):
         return False
     M64 = M.double().numpy()
-    tol = DERIV_TOL[dtype] * max(1.0, scale)
+    tol = deriv_tol(dtype, scale)
     after = {li: leaves[li].grad for li in idxs}
 
     def block_err(li, off):
